@@ -447,7 +447,52 @@ def extra_coverage():
                                  "discarded: diamond where field dict and MRO lookup pick different declarations": Z.RETRIES[2]}}
 
 
+def id_takeover_cases(rng, n):
+    """accessors answer for the node they are called on, whatever was asked of OTHER nodes before: P's accessors are read,
+    Q = P.replace(child = a distinct object with the same content and origin (differs in a non-comparable property only))
+    takes over P's id and is == P; with P still alive every accessor of Q must return the objects stored in Q's fields"""
+    for _ in range(n):
+        tag1, tag2 = rng.sample(["a", "b", "c", "d"], 2)
+        k1 = zoo.Leaf(v=rng.randrange(5), tag=tag1)
+        k2 = zoo.Leaf(v=k1.v, tag=tag2)
+        other = zoo.Leaf(v=7)
+        shape = rng.choice(["bin", "tup", "mixed", "opt"])
+        if shape == "bin":
+            p, kw = zoo.Bin(k1, other), {"left": k2}
+        elif shape == "tup":
+            p, kw = zoo.Tup((other, k1)), {"items": (other, k2)}
+        elif shape == "mixed":
+            p, kw = zoo.Mixed(other, (k1,), None, name="m"), {"items": (k2,)}
+        else:
+            p, kw = zoo.Opt(k1), {"c": k2}
+        reads = lambda n: {  # noqa
+            "children": list(n.children), "get_child_nodes": list(n.get_child_nodes()),
+            "get_child_nodes(sort_keys)": list(n.get_child_nodes(sort_keys=True)),
+            "get_child_nodes_with_field": [x[0] for x in n.get_child_nodes_with_field()],
+            "iter_child_fields": [x for v, f in n.iter_child_fields() for x in (v if isinstance(v, tuple) else (v,)) if x is not None],
+            "get_properties": [v for v, f in n.get_properties()], "to_properties_dict": sorted(n.to_properties_dict().items()),
+        }
+        before = reads(p)
+        q = p.replace(**kw)
+        stored = [x for nm, coll, ns in zoo.kid_lists(q) for x in ns]
+        got = reads(q)
+        fail = None
+        for k in ("children", "get_child_nodes", "get_child_nodes_with_field", "iter_child_fields"):
+            if len(got[k]) != len(stored) or any(a is not b for a, b in zip(got[k], stored)):
+                fail = f"{k} of the replacement returns objects that are not the ones stored in its fields (a same-id, ==-equal predecessor was queried before)"
+                break
+        if fail is None and (len(got["get_child_nodes(sort_keys)"]) != len(stored) or {id(x) for x in got["get_child_nodes(sort_keys)"]} != {id(x) for x in stored}):
+            fail = "get_child_nodes(sort_keys=True) of the replacement returns other objects than its fields hold"
+        if fail is None and (got["get_properties"] != reads(q)["get_properties"] or got["to_properties_dict"] != before["to_properties_dict"]):
+            fail = "property accessors of the replacement differ from the (equal) original's"
+        yield Case("directed:id-takeover", None, None, True,
+                   f"P={zoo.show(p)}; accessors read; Q=P.replace({list(kw)[0]}=<equal content, other object>) (same id: {q.id == p.id})",
+                   oracle_fail=fail, sig="accessors|directed|id-takeover")
+        del p, q, k1, k2, other, before, got, stored
+
+
 def cases(rng: random.Random, tier: str):
+    yield from id_takeover_cases(rng, 12 if tier == "quick" else 200)
     n_h = 30 if tier == "quick" else 550
     for j in range(n_h):
         proto_h = Z.gen_hier(rng)
